@@ -123,6 +123,8 @@ def run(ctx):
         L = rs.uniform(2.5, 4.0, 3)
         xyz_ = (rs.rand(2, 20, 3) * L).astype(np.float32)
         near = 90 + rs.uniform(-9e-4, 9e-4, 3) * np.array([1, k % 2, 1])
+        if k % 3 == 0:
+            near = np.array([90.0, 90.0, 90.0])   # exactly rectangular: the hypothesis of c08_switch_independent (the two kernels agree there)
         tn = md.Trajectory(xyz_, None, unitcell_lengths=[L, L], unitcell_angles=[near, [70, 80, 95]])
         prs = np.array([(i, j) for i in range(20) for j in range(i + 1, 20)])
         quad = np.array([[0, 1, 2, 3], [4, 5, 6, 7], [8, 9, 10, 11], [12, 13, 14, 15]])
